@@ -81,7 +81,7 @@ func genC01(t *rapid.T, e *Env) *C01Case {
 		maxSteps = 120
 	}
 
-	c.Steps = rapid.SliceOfN(rapid.Custom(func(t *rapid.T) Step { return genKeyToken(t, e) }), 1, maxSteps).Draw(t, "steps")
+	c.Steps = genScript(t, e, 1, maxSteps*2/3)
 
 	// chunking: which steps ride in the same read as their successor
 	switch rapid.IntRange(0, 3).Draw(t, "chunking") {
